@@ -6,5 +6,7 @@ def main (args : List String) : IO UInt32 := do
   | ["c06"] => ZeepVerif.Driver.C06Spec.main; return 0
   | ["gen", seed, count, root] => ZeepVerif.Driver.SpecGen.main seed.toNat! count.toNat! root
   | ["gencyc", seed, count, root] => ZeepVerif.Driver.SpecGen.main seed.toNat! count.toNat! root true
+  | ["genwsdl", seed, count, root] => ZeepVerif.Driver.SpecGen.main seed.toNat! count.toNat! root false false true
+  | ["genwsdlcollide", seed, count, root] => ZeepVerif.Driver.SpecGen.main seed.toNat! count.toNat! root false true true
   | ["gencollide", seed, count, root] => ZeepVerif.Driver.SpecGen.main seed.toNat! count.toNat! root false true
   | _ => IO.eprintln "usage: zvspec c06 < lines"; return 2
